@@ -19,11 +19,11 @@ def run(tree):
 conf = {}
 if os.path.exists(os.path.join(dst, 'demo.hid')):
     conf = {'demo_on_unchanged_tree': run('/repo'), 'demo_on_changed_tree': run(wt)}
-elif os.path.exists(os.path.join(dst, 'demo.py')):
+if os.path.exists(os.path.join(dst, 'demo.py')):
     def rp(tree):
         r = subprocess.run(['/venv/bin/python', os.path.join(dst, 'demo.py')], cwd=tree, env={**os.environ, 'PYTHONPATH': tree}, capture_output=True, text=True)
         return {'exit': r.returncode, 'out': (r.stdout + r.stderr)[-400:]}
-    conf = {'demo_on_unchanged_tree': rp('/repo'), 'demo_on_changed_tree': rp(wt)}
+    conf.update({'demo_py_on_unchanged_tree': rp('/repo'), 'demo_py_on_changed_tree': rp(wt)})
 t = subprocess.run(['/venv/bin/python', '-m', 'pytest', '-q', '-p', 'no:cacheprovider', 'tests/test_lexer.py', 'tests/test_parser.py', 'tests/test_typecheck.py'],
                    cwd=wt, capture_output=True, text=True).stdout.strip().splitlines()[-1]
 meta['confirmed_by_me'] = {'pinned_tests_on_changed_tree': t, **conf,
